@@ -117,13 +117,13 @@ func r13_1(c *Ctx, rule string) {
 		a := call.Common().Args
 		okFi := c.DerivesFrom(a[1], func(v ssa.Value) bool { return c.isCallValueTo(v, "os.Lstat") }, 3)
 		pt, isP := eng.Strip(a[3]).(*ssa.Parameter)
-		c.R.Check(okFi && isP && pt.Name() == "target", rule, c.siteName(call)+"/args", c.pos(call), "copyFileInfo(source info, src, target)", "copyFileInfo is not applied to (the source's Lstat info, the target path)")
+		c.R.Check(okFi && isP && c.P.ParamName(pt) == "target", rule, c.siteName(call)+"/args", c.pos(call), "copyFileInfo(source info, src, target)", "copyFileInfo is not applied to (the source's Lstat info, the target path)")
 	}
 	for _, call := range c.P.CallsTo(cp, "copy.copyXAttrs") {
 		a := call.Common().Args
 		p0, ok0 := eng.Strip(a[0]).(*ssa.Parameter)
 		p1, ok1 := eng.Strip(a[1]).(*ssa.Parameter)
-		c.R.Check(ok0 && ok1 && p0.Name() == "target" && p1.Name() == "src", rule, c.siteName(call)+"/args", c.pos(call), "copyXAttrs(target, src, handler)", "copyXAttrs is not called as (target, src)")
+		c.R.Check(ok0 && ok1 && c.P.ParamName(p0) == "target" && c.P.ParamName(p1) == "src", rule, c.siteName(call)+"/args", c.pos(call), "copyXAttrs(target, src, handler)", "copyXAttrs is not called as (target, src)")
 	}
 }
 
@@ -183,7 +183,7 @@ func r13_2(c *Ctx, rule string) {
 			}
 		}
 		pn, isP := eng.Strip(a[0]).(*ssa.Parameter)
-		c.R.Check(ok && isP && pn.Name() == "name", rule, c.siteName(call)+"/owner", c.pos(call), "Chown(name, {source uid, source gid}, chowner)", "the owner handed to the Chowner is not the source's (uid, gid)")
+		c.R.Check(ok && isP && c.P.ParamName(pn) == "name", rule, c.siteName(call)+"/owner", c.pos(call), "Chown(name, {source uid, source gid}, chowner)", "the owner handed to the Chowner is not the source's (uid, gid)")
 		hasOpt := c.DerivesFrom(a[2], func(v ssa.Value) bool { return isFieldLoad(v, "copy.copier.chown") }, 3)
 		c.R.Check(hasOpt, rule, c.siteName(call)+"/chowner", c.pos(call), "the copier's Chowner (identity when unset)", "the Chowner option is not consulted")
 	}
@@ -201,7 +201,7 @@ func r13_2(c *Ctx, rule string) {
 		}, 10)
 		oct := c.DerivesFrom(a[1], func(v ssa.Value) bool { return isFieldLoad(v, "copy.copier.mode") }, 12)
 		pn, isP := eng.Strip(a[0]).(*ssa.Parameter)
-		c.R.Check(srcMode && set && oct && isP && pn.Name() == "name", rule, c.siteName(call)+"/mode", c.pos(call), "mode is the source mode, the symbolic set applied to it, or the octal option", "the mode applied does not derive from {source mode, symbolic set, octal option}")
+		c.R.Check(srcMode && set && oct && isP && c.P.ParamName(pn) == "name", rule, c.siteName(call)+"/mode", c.pos(call), "mode is the source mode, the symbolic set applied to it, or the octal option", "the mode applied does not derive from {source mode, symbolic set, octal option}")
 	}
 	// the symbolic set is applied to the source mode itself: 'X' and friends
 	// look at the type bits
@@ -371,7 +371,7 @@ func r13_4(c *Ctx, rule string) {
 		b := call.Common().Args
 		e, isE := b[0].(*ssa.Extract)
 		pt, isP := eng.Strip(b[1]).(*ssa.Parameter)
-		c.R.Check(isE && e.Tuple == ssa.Value(gls) && e.Index == 0 && isP && pt.Name() == "target", rule, c.siteName(call)+"/args", c.pos(call), "os.Link(recorded first path, target)", "os.Link is not called as (path recorded for the inode, target)")
+		c.R.Check(isE && e.Tuple == ssa.Value(gls) && e.Index == 0 && isP && c.P.ParamName(pt) == "target", rule, c.siteName(call)+"/args", c.pos(call), "os.Link(recorded first path, target)", "os.Link is not called as (path recorded for the inode, target)")
 	}
 	c.ObPrecedes(rule, c.name(cp)+"/lookup-before-copy", cp, nil, func(in ssa.Instruction) bool { return in == ssa.Instruction(gls) }, c.callPred("copy.copyFile", "os.Link"), "the inode lookup", "copying or linking a regular file")
 	// hit => link, not copy
@@ -491,11 +491,11 @@ func r13_5(c *Ctx, rule string) {
 		p0, ok0 := eng.Strip(a[0]).(*ssa.Parameter)
 		fromGet := c.DerivesFrom(a[2], func(v ssa.Value) bool { return c.isCallValueTo(v, sx+"LGetxattr") }, 3)
 		fromList := c.DerivesFrom(a[1], func(v ssa.Value) bool { return c.isCallValueTo(v, sx+"LListxattr") }, 6)
-		c.R.Check(ok0 && p0.Name() == "dst" && fromGet && fromList, rule, c.siteName(call)+"/args", c.pos(call), "sets on dst each listed key with the value read from src", "LSetxattr does not write (dst, listed key, value read from src)")
+		c.R.Check(ok0 && c.P.ParamName(p0) == "dst" && fromGet && fromList, rule, c.siteName(call)+"/args", c.pos(call), "sets on dst each listed key with the value read from src", "LSetxattr does not write (dst, listed key, value read from src)")
 	}
 	for _, call := range c.P.CallsTo(fn, sx+"LListxattr", sx+"LGetxattr") {
 		p0, ok0 := eng.Strip(call.Common().Args[0]).(*ssa.Parameter)
-		c.R.Check(ok0 && p0.Name() == "src", rule, c.siteName(call)+"/source", c.pos(call), "reads from src", "xattrs are not read from the source path")
+		c.R.Check(ok0 && c.P.ParamName(p0) == "src", rule, c.siteName(call)+"/source", c.pos(call), "reads from src", "xattrs are not read from the source path")
 	}
 }
 
@@ -532,7 +532,7 @@ func r13_6(c *Ctx, rule string) {
 		if !ok || c.P.CalleeName(call) != "builtin:append" {
 			return false
 		}
-		return c.DerivesFrom(call.Call.Args[1], func(v ssa.Value) bool { p, isP := v.(*ssa.Parameter); return isP && p.Name() == "path" }, 5)
+		return c.DerivesFrom(call.Call.Args[1], func(v ssa.Value) bool { p, isP := v.(*ssa.Parameter); return isP && c.P.ParamName(p) == "path" }, 5)
 	}, "recording the created path")
 	ex := c.explorer(fn)
 	ex.From = mk
@@ -543,7 +543,7 @@ func r13_6(c *Ctx, rule string) {
 	c.R.Check(len(h) == 0 && !ex.Exhausted, rule, c.siteName(mk)+"/chown-before-utimes", c.pos(mk), "Chown precedes Utimes", "the new directory is timed before it is chowned")
 	for _, call := range c.P.CallsTo(fn, "copy.Chown", "copy.Utimes") {
 		p0, ok0 := eng.Strip(call.Common().Args[0]).(*ssa.Parameter)
-		c.R.Check(ok0 && p0.Name() == "path", rule, c.siteName(call)+"/path", c.pos(call), "applied to the created path", c.P.CalleeName(call)+" is not applied to the directory just created")
+		c.R.Check(ok0 && c.P.ParamName(p0) == "path", rule, c.siteName(call)+"/path", c.pos(call), "applied to the created path", c.P.CalleeName(call)+" is not applied to the directory just created")
 	}
 	// the parents' result is kept
 	rec := c.P.CallsTo(fn, "copy.MkdirAll")
@@ -597,7 +597,7 @@ func r13_7(c *Ctx, rule string) {
 		a := call.Common().Args
 		p1, ok1 := eng.Strip(a[1]).(*ssa.Parameter)
 		okFi := c.DerivesFrom(a[2], func(v ssa.Value) bool { return c.isCallValueTo(v, "os.Lstat") }, 3)
-		c.R.Check(ok1 && p1.Name() == "target" && okFi, rule, c.siteName(call)+"/args", c.pos(call), "notifyChange(target, source info)", "the notification does not carry (target, source info)")
+		c.R.Check(ok1 && c.P.ParamName(p1) == "target" && okFi, rule, c.siteName(call)+"/args", c.pos(call), "notifyChange(target, source info)", "the notification does not carry (target, source info)")
 	}
 	chk := c.checkedCallPred("copy.(*copier).notifyChange")
 	for _, call := range c.P.CallsTo(cp, nonDirCreators...) {
@@ -613,7 +613,7 @@ func r13_7(c *Ctx, rule string) {
 			c.ObErrChecked(rule+"/checked", call)
 			a := call.Common().Args
 			ok := c.DerivesFrom(a[1], func(v ssa.Value) bool { return isFieldLoad(v, "copy.copier.root") }, 5) &&
-				c.DerivesFrom(a[1], func(v ssa.Value) bool { p, isP := v.(*ssa.Parameter); return isP && p.Name() == "target" }, 5)
+				c.DerivesFrom(a[1], func(v ssa.Value) bool { p, isP := v.(*ssa.Parameter); return isP && c.P.ParamName(p) == "target" }, 5)
 			c.R.Check(ok, rule, c.siteName(call)+"/path", c.pos(call), "reports the target relative to the copier's root", "the reported path is not the target made relative to the destination root")
 		}
 	}
@@ -767,7 +767,7 @@ func r14_2(c *Ctx, rule string) {
 				return false
 			}
 			p, isP := eng.Strip(call.Call.Args[0]).(*ssa.Parameter)
-			return isP && p.Name() == "dstRoot"
+			return isP && c.P.ParamName(p) == "dstRoot"
 		}, 6)
 	}
 	fromSrcRoot := func(v ssa.Value) bool {
@@ -777,7 +777,7 @@ func r14_2(c *Ctx, rule string) {
 				return false
 			}
 			p, isP := eng.Strip(call.Call.Args[0]).(*ssa.Parameter)
-			return isP && p.Name() == "srcRoot"
+			return isP && c.P.ParamName(p) == "srcRoot"
 		}, 6)
 	}
 	for _, call := range c.P.CallsTo(cp, "copy.MkdirAll") {
@@ -806,7 +806,7 @@ func r14_2(c *Ctx, rule string) {
 		c.R.Floor(rule, "fs.RootPath calls in rootPath", len(calls), 2)
 		for _, call := range calls {
 			p, isP := eng.Strip(call.Common().Args[0]).(*ssa.Parameter)
-			c.R.Check(isP && p.Name() == "root", rule, c.siteName(call)+"/root", c.pos(call), "resolved against the given root", "rootPath does not resolve against its root parameter")
+			c.R.Check(isP && c.P.ParamName(p) == "root", rule, c.siteName(call)+"/root", c.pos(call), "resolved against the given root", "rootPath does not resolve against its root parameter")
 		}
 		hit, und := c.SuccessAvoiding(r, nil, nil, nil, func(in ssa.Instruction) bool {
 			if c.P.IsCallTo(in, rp) {
@@ -863,7 +863,7 @@ func r14_4(c *Ctx, rule string) {
 	c.ObPrecedes(rule, c.name(f.copy)+"/emptied-before-create", f.copy, nil, chk, c.callPred(nonDirCreators...), "a checked ensureEmptyFileTarget", "creating a file, link, symlink or device")
 	for _, call := range c.P.CallsTo(f.copy, "copy.ensureEmptyFileTarget") {
 		p, isP := eng.Strip(call.Common().Args[0]).(*ssa.Parameter)
-		c.R.Check(isP && p.Name() == "target", rule, c.siteName(call)+"/target", c.pos(call), "applied to the target", "ensureEmptyFileTarget is not applied to the target path")
+		c.R.Check(isP && c.P.ParamName(p) == "target", rule, c.siteName(call)+"/target", c.pos(call), "applied to the target", "ensureEmptyFileTarget is not applied to the target path")
 	}
 	for _, call := range c.P.CallsTo(f.copy, nonDirCreators...) {
 		a := call.Common().Args
@@ -872,7 +872,7 @@ func r14_4(c *Ctx, rule string) {
 			idx = 0
 		}
 		p, isP := eng.Strip(a[idx]).(*ssa.Parameter)
-		c.R.Check(isP && p.Name() == "target", rule, c.siteName(call)+"/creates-target", c.pos(call), "creates the target path", c.P.CalleeName(call)+" does not create the emptied target path")
+		c.R.Check(isP && c.P.ParamName(p) == "target", rule, c.siteName(call)+"/creates-target", c.pos(call), "creates the target path", c.P.CalleeName(call)+" does not create the emptied target path")
 	}
 }
 
@@ -914,7 +914,7 @@ func r15_1(c *Ctx, rule string) {
 				c.R.Check(!und && hit == nil, rule, c.name(fn)+"/directory-is-error", c.pos(call), "a directory in the way is an error", "ensureEmptyFileTarget succeeds although a directory is in the way of a file")
 			}
 			p, isP := eng.Strip(call.Common().Args[0]).(*ssa.Parameter)
-			c.R.Check(isP && p.Name() == "dst", rule, c.siteName(call)+"/arg", c.pos(call), "removes the inspected path", "os.Remove is applied to a path other than the one inspected")
+			c.R.Check(isP && c.P.ParamName(p) == "dst", rule, c.siteName(call)+"/arg", c.pos(call), "removes the inspected path", "os.Remove is applied to a path other than the one inspected")
 		case "copy.(*copier).removeTargetIfNeeded/os.RemoveAll":
 			var flag []string
 			for _, ld := range fieldLoadsIn(fn, "copy.copier.alwaysReplaceExistingDestPaths") {
@@ -953,7 +953,7 @@ func r15_1(c *Ctx, rule string) {
 			})
 			c.R.Check(len(nilKeys) > 0, rule, c.name(fn)+"/nil-target-test", c.P.Pos(fn.Pos()), "a missing target is tested", "removeTargetIfNeeded does not test for a missing target")
 			p, isP := eng.Strip(call.Common().Args[0]).(*ssa.Parameter)
-			c.R.Check(isP && p.Name() == "target", rule, c.siteName(call)+"/arg", c.pos(call), "removes the target", "os.RemoveAll is applied to a path other than the target")
+			c.R.Check(isP && c.P.ParamName(p) == "target", rule, c.siteName(call)+"/arg", c.pos(call), "removes the target", "os.RemoveAll is applied to a path other than the target")
 		default:
 			c.R.Fail(rule, c.siteName(call)+"/unexpected", c.pos(call), "an additional destructive call ("+c.P.CalleeName(call)+" in "+c.name(fn)+"): the overlay rules allow removal only in ensureEmptyFileTarget and removeTargetIfNeeded")
 		}
